@@ -29,7 +29,7 @@ func init() {
 				"all members or panics. R7: the constructor used for a recognised device is built from that profile's blocking mode " +
 				"and filtered-response TTL. R8: every rule-list engine (shared lists, blocked services, safe search) has a result cache of its own, so a cached verdict of one source is never returned for another.",
 			NotCovered: "what the urlfilter engine matches and the allow/block priority inside GetDNSBasicRule (library); equality of verdicts over all rule-list contents.",
-			Rules: map[string]string{"C02-R18": "objects built per filtering group / profile in conversion loops take no slice carried across iterations (shared backing array or accumulation)", "C02-R1": "request-filter order", "C02-R2": "FilterRequest precedence", "C02-R17": "pooled per-request filtering state is fully re-initialised; rule-list gathering loops skip (never stop at) an unknown element", "C02-R15": "the profile's rule-list IDs keep the configured order through the backend conversion (the first list with a matching rewrite wins, so reordering changes verdicts)", "C02-R13": "blocking-mode fields (custom IPv4 / IPv6 answers) are converted name-to-name by the backend and file-cache codecs", "C02-R11": "mainmw.filterRequest / filterResponse: the filter is asked about this request and this upstream answer; a CNAME rewrite makes the rewritten question go upstream and restores ID, question and a leading CNAME on the way back instead of response filtering", "C02-R10": "in-place refreshable lists (safe search): engine swap and cache clear in one write-locked section, queries under the lock (shared with C12-R1/R2)", "C02-R3": "rule-list consultation order and rewrite priority",
+			Rules: map[string]string{"C02-R19": "response side of the composite filter: first answer with a verdict decides; every rule source consulted with the response's own data as an answer; answer-type dispatch", "C02-R18": "objects built per filtering group / profile in conversion loops take no slice carried across iterations (shared backing array or accumulation)", "C02-R1": "request-filter order", "C02-R2": "FilterRequest precedence", "C02-R17": "pooled per-request filtering state is fully re-initialised; rule-list gathering loops skip (never stop at) an unknown element", "C02-R15": "the profile's rule-list IDs keep the configured order through the backend conversion (the first list with a matching rewrite wins, so reordering changes verdicts)", "C02-R13": "blocking-mode fields (custom IPv4 / IPv6 answers) are converted name-to-name by the backend and file-cache codecs", "C02-R11": "mainmw.filterRequest / filterResponse: the filter is asked about this request and this upstream answer; a CNAME rewrite makes the rewritten question go upstream and restores ID, question and a leading CNAME on the way back instead of response filtering", "C02-R10": "in-place refreshable lists (safe search): engine swap and cache clear in one write-locked section, queries under the lock (shared with C12-R1/R2)", "C02-R3": "rule-list consultation order and rewrite priority",
 				"C02-R4": "network rules before hosts rules", "C02-R5": "filter selection", "C02-R6": "response shaping and exhaustiveness", "C02-R7": "profile constructor provenance", "C02-R8": "one result cache per rule-list engine"},
 		}})
 }
@@ -43,6 +43,7 @@ func runC02(c *an.Ctx) {
 		"initMsgConstructor|dnsmsg.ConstructorConfig":             nil,
 	})
 	c02ListOrder(c)
+	c02ResponseSide(c)
 	// ---- R17: per-request filtering state comes out of its pool fully re-initialised (no verdict of a
 	// previous request survives), and the loops that gather a profile's rule lists visit every configured list
 	c.Floor("C02-R17", 3)
@@ -754,6 +755,131 @@ func c02ListOrder(c *an.Ctx) {
 			}
 			if o.Mem[k+".Enabled"].String() != "x.Enabled" {
 				return "the enabled flag copied"
+			}
+			return ""
+		},
+	})
+}
+
+// c02ResponseSide holds the tables of response filtering in the composite
+// filter: every answer record is examined until the first verdict; address and
+// CNAME answers go through every rule source (shared lists, the profile's own
+// rules with the device name, blocked-service lists) with this response's
+// client address, as a response (isAns = true); HTTPS answers go through the
+// same sources once per address hint.
+func c02ResponseSide(c *an.Ctx) {
+	const cp = "filter/internal/composite."
+	c.Floor("C02-R19", 3)
+	decide(c, "C02-R19", cp+"(*Filter).FilterResponse", an.DecideCfg{
+		Dom: an.Domain{"len(p2.DNS.Answer)": an.Ints(0, 1, 2, 3), "hit:0": an.Bools, "hit:1": an.Bools, "hit:2": an.Bools},
+		OnCall: func(it *an.Interp, name string, args []an.AV) (an.AV, bool) {
+			if strings.HasSuffix(name, ").filterAnswer") {
+				for i := 0; i < 3; i++ {
+					if args[2].String() == fmt.Sprintf("p2.DNS.Answer[%d]", i) && args[1].String() == "p2" {
+						if it.Feature(fmt.Sprintf("hit:%d", i)).IsTrue() {
+							return an.NonNil(fmt.Sprintf("verdict%d", i)), true
+						}
+						return an.Nil(), true
+					}
+				}
+				return an.Sym("filterAnswer(" + args[1].String() + "," + args[2].String() + ")"), true
+			}
+			return an.AV{}, false
+		},
+		Expect: func(f an.Features, o an.AOutcome) string {
+			want := "nil, nil"
+			for i := int64(0); i < f.I("len(p2.DNS.Answer)"); i++ {
+				if f.B(fmt.Sprintf("hit:%d", i)) {
+					want = fmt.Sprintf("nonnil:verdict%d, nil", i)
+					break
+				}
+			}
+			if o.RetString() != want {
+				return want + " (the first answer record with a verdict decides; every record before it was examined); got " + o.RetString()
+			}
+			return ""
+		},
+	})
+	decide(c, "C02-R19", cp+"(*Filter).filterRespWithRuleLists", an.DecideCfg{
+		Dom: an.Domain{"p0.custom": {an.Nil(), an.NonNil("custom")}, "len(p0.ruleLists)": an.Ints(0, 1, 2), "len(p0.svcLists)": an.Ints(0, 1, 2)},
+		OnCall: func(it *an.Interp, name string, args []an.AV) (an.AV, bool) {
+			switch {
+			case strings.HasSuffix(name, ").DNSResult"):
+				return an.NonNil("dr:" + args[0].String()), true
+			case strings.HasSuffix(name, "URLFilterResult).Add"):
+				return an.Nil(), true
+			case strings.HasSuffix(name, "URLFilterResult).ToInternal"):
+				return an.Sym("merged(" + args[2].String() + ")"), true
+			}
+			return an.AV{}, false
+		},
+		Expect: func(f an.Features, o an.AOutcome) string {
+			var want, got []string
+			for i := int64(0); i < f.I("len(p0.ruleLists)"); i++ {
+				want = append(want, fmt.Sprintf("p0.ruleLists[%d]", i))
+			}
+			if !f.IsNil("p0.custom") {
+				want = append(want, "custom")
+			}
+			for i := int64(0); i < f.I("len(p0.svcLists)"); i++ {
+				want = append(want, fmt.Sprintf("p0.svcLists[%d]", i))
+			}
+			adds := 0
+			for _, e := range o.Effects {
+				if e.Kind != "call" {
+					continue
+				}
+				if strings.HasSuffix(e.Name, "URLFilterResult).Add") {
+					adds++
+				}
+				if !strings.HasSuffix(e.Name, ").DNSResult") {
+					continue
+				}
+				who := e.Args[0]
+				name := `""`
+				if strings.Contains(who, "custom") {
+					who, name = "custom", "p1.ClientName"
+				}
+				got = append(got, strings.TrimSuffix(strings.TrimPrefix(who, "nonnil:"), ".filter"))
+				if e.Args[1] != "p1.RemoteIP" || e.Args[2] != name || e.Args[3] != "p2" || e.Args[4] != "p3" || e.Args[5] != "true" {
+					return "every source consulted with this response's client address, the device name for the profile's own rules only, the answer's host and type, as an answer; got " + strings.Join(e.Args[1:], ",")
+				}
+			}
+			if strings.Join(got, " ") != strings.Join(want, " ") || adds != len(want) {
+				return fmt.Sprintf("every rule source consulted and merged: %v; got %v (%d merged)", want, got, adds)
+			}
+			if o.RetString() != "merged(p3)" {
+				return "the merged verdict for the answer's type; got " + o.RetString()
+			}
+			return ""
+		},
+	})
+	decide(c, "C02-R19", cp+"parseRespAnswer", an.DecideCfg{
+		Dom: an.Domain{"type(p0)": an.Strs("*github.com/miekg/dns.A", "*github.com/miekg/dns.AAAA", "*github.com/miekg/dns.CNAME", "*github.com/miekg/dns.TXT")},
+		OnCall: func(it *an.Interp, name string, args []an.AV) (an.AV, bool) {
+			switch {
+			case name == "(net.IP).String":
+				return an.Sym("str(" + args[0].String() + ")"), true
+			case name == "strings.TrimSuffix":
+				return an.Sym("trim(" + args[0].String() + ")"), true
+			}
+			return an.AV{}, false
+		},
+		Expect: func(f an.Features, o an.AOutcome) string {
+			tA, _ := c.ConstInt("github.com/miekg/dns", "TypeA")
+			tAAAA, _ := c.ConstInt("github.com/miekg/dns", "TypeAAAA")
+			tCNAME, _ := c.ConstInt("github.com/miekg/dns", "TypeCNAME")
+			if len(o.Ret) != 3 {
+				return "three results"
+			}
+			want := map[string]string{
+				"*github.com/miekg/dns.A":     fmt.Sprintf("%d, true", tA),
+				"*github.com/miekg/dns.AAAA":  fmt.Sprintf("%d, true", tAAAA),
+				"*github.com/miekg/dns.CNAME": fmt.Sprintf("%d, true", tCNAME),
+				"*github.com/miekg/dns.TXT":   "0, false",
+			}[f.S("type(p0)")]
+			if got := o.Ret[1].String() + ", " + o.Ret[2].String(); got != want {
+				return "type and ok = " + want + " (addresses and CNAME targets are filtered, each under its own type); got " + got
 			}
 			return ""
 		},
